@@ -224,6 +224,14 @@ def run(repo: Repo, rep: Report, tier: str) -> None:
             else:
                 ok, why = False, f"stores {norm(val)} for every id of the component, fixed or not: a user-placed entity is moved"
             rep.check(ok, "C09-R2", f"{m.short}: position store `{_shape(val)}` preserves fixed positions", why, m.loc(st))
+    # the mapping returned by optimize() is what the planner converts from tile to centre: it may be empty only when there is nothing to place
+    opt9 = eng.methods["optimize"]
+    empties9 = [n for n in walk_local(opt9.node) if isinstance(n, ast.Return) and isinstance(n.value, ast.Dict) and not n.value.keys]
+    for r9 in empties9:
+        gs9 = cguards(opt9, r9)
+        ok9 = [g for g, pol in gs9 if pol] == ["self.n_entities == 0"] and all(pol for _g, pol in gs9)
+        rep.check(ok9, "C09-R2", "optimize() returns an empty mapping only for an empty plan",
+                  "under self.n_entities == 0" if ok9 else f"empty mapping returned under {[('' if p_ else 'not ') + g for g, p_ in gs9]}: entities missing from the mapping keep their tile coordinates as centre (user-placed entities are emitted half a footprint off)", opt9.loc(r9))
     rep.floor("C09-R2", "position-mapping stores in the layout engine", n_stores, 3)
     cpv = eng.methods["_create_position_variables"]
     ccpv = canon(cpv)
